@@ -365,7 +365,7 @@ def decide(prop, tier, seed):
                         unstable.append("undecided at half rlimit: " + u)
         for u in unstable:
             print(f"UNSTABLE: {u}")
-    kres = kani_run.run_for(prop, tier)
+    kres = kani_run.run_for(prop, tier, frozenset(kf_obl))
     violations, knowns, undecided = [], [], []
     obligations = 0
     discharged = 0
